@@ -26,13 +26,13 @@ type lockRef struct {
 }
 
 type C12 struct {
-	st        *Stats
-	prev      map[string]math.Int // acc|denom -> committed at the previous observation point
-	decreased map[string]math.Int // denom -> cumulative observed decreases of committed amounts
-	uncommit  map[string]math.Int // denom -> cumulative amount of successful explicit uncommit msgs (Eden/EdenB)
-	locks     map[string][]lockRef // acc|denom -> reference lock-ups
-	oraclePool map[string]bool     // share denom -> pool uses oracle (locks apply)
-	inited    bool
+	st         *Stats
+	prev       map[string]math.Int  // acc|denom -> committed at the previous observation point
+	decreased  map[string]math.Int  // denom -> cumulative observed decreases of committed amounts
+	uncommit   map[string]math.Int  // denom -> cumulative amount of successful explicit uncommit msgs (Eden/EdenB)
+	locks      map[string][]lockRef // acc|denom -> reference lock-ups
+	oraclePool map[string]bool      // share denom -> pool uses oracle (locks apply)
+	inited     bool
 }
 
 func NewC12() *C12 {
@@ -170,6 +170,7 @@ func (m *C12) AfterCommit(w *chain.World, blk *chain.BlockRecord) {
 	cur := m.observe(w, ctx, "commit", "", false)
 	sum := map[string]math.Int{}
 	claimed := map[string]math.Int{}
+	denomsExtra := map[string]bool{}
 	for _, c := range a.CommitmentKeeper.GetAllCommitments(ctx) {
 		for _, ct := range c.CommittedTokens {
 			addTo(sum, ct.Denom, ct.Amount)
@@ -184,6 +185,14 @@ func (m *C12) AfterCommit(w *chain.World, blk *chain.BlockRecord) {
 		for _, cl := range c.Claimed {
 			addTo(claimed, cl.Denom, cl.Amount)
 		}
+		// deposited liquid tokens still vesting are held by the custody account as well (the native
+		// token is minted on release instead)
+		for _, v := range c.VestingTokens {
+			if v.Denom != "uelys" && v.Denom != ptypes.Eden && v.Denom != ptypes.EdenB {
+				addTo(claimed, v.Denom, v.TotalAmount.Sub(v.ClaimedAmount))
+				denomsExtra[v.Denom] = true
+			}
+		}
 	}
 	params := a.CommitmentKeeper.GetParams(ctx)
 	denoms := map[string]bool{}
@@ -192,6 +201,14 @@ func (m *C12) AfterCommit(w *chain.World, blk *chain.BlockRecord) {
 	}
 	for _, c := range params.TotalCommitted {
 		denoms[c.Denom] = true
+	}
+	for d := range denomsExtra {
+		denoms[d] = true
+	}
+	for d := range claimed {
+		if d != ptypes.Eden && d != ptypes.EdenB {
+			denoms[d] = true
+		}
 	}
 	ds := []string{}
 	for d := range denoms {
@@ -249,20 +266,20 @@ func denomClass(d string) string {
 // on the shares committed at that moment, and a block never credits more than it collected.
 
 type C13 struct {
-	st      *Stats
-	prevP   map[string]*big.Rat // pool|denom|holder -> pending at the previous observation point
-	haveP   bool
-	preBal  map[string]math.Int
-	preHold map[string]map[string]math.Int
-	preAcc  map[string]math.LegacyDec
-	inDist  bool
-	allowed map[string]*big.Rat // increments the distribution step may add, per pool|denom|holder
+	st           *Stats
+	prevP        map[string]*big.Rat // pool|denom|holder -> pending at the previous observation point
+	haveP        bool
+	preBal       map[string]math.Int
+	preHold      map[string]map[string]math.Int
+	preAcc       map[string]math.LegacyDec
+	inDist       bool
+	allowed      map[string]*big.Rat // increments the distribution step may add, per pool|denom|holder
 	claimTx      *chain.TxRecord
 	claimWallet  map[string]math.Int
 	claimPending map[string]*big.Rat
 }
 
-func NewC13() *C13          { return &C13{st: NewStats("C13"), prevP: map[string]*big.Rat{}} }
+func NewC13() *C13           { return &C13{st: NewStats("C13"), prevP: map[string]*big.Rat{}} }
 func (m *C13) Stats() *Stats { return m.st }
 
 func poolShareDenom(pid uint64) string {
@@ -539,10 +556,10 @@ func (m *C13) AroundModule(w *chain.World, ctx sdk.Context, module, phase string
 // expiring: external incentives whose last block is h are deleted inside the end-blocker; the
 // monitor remembers them from the last commit so that block still counts them as funded.
 var c13Last = map[*chain.World][]struct {
-	denom      string
-	to         int64
-	from       int64
-	perBlock   math.Int
+	denom    string
+	to       int64
+	from     int64
+	perBlock math.Int
 }{}
 
 func (m *C13) expiring(w *chain.World, h int64) map[string]math.Int {
